@@ -44,6 +44,9 @@ type c11Case struct {
 	Name    string      `json:"name"`
 	Ordered bool        `json:"ordered,omitempty"`
 	Grpc    bool        `json:"grpc,omitempty"` // drive the gRPC StreamingPull handler (services) instead of actions.MessageStreamer
+	// the client acknowledges (unary Acknowledge) each of the first AckInSend messages while the server is
+	// still inside the Send that delivers it
+	AckInSend int `json:"ack_in_send,omitempty"`
 	Actions []c11Action `json:"actions"`
 }
 
@@ -74,6 +77,8 @@ type scriptConn struct {
 	lastSend map[uuid.UUID]time.Time
 	ctl      *Ctl
 	greqs    chan *pubsubpb.StreamingPullRequest // gRPC mode: what the client sends
+	onSend   func(id uuid.UUID)                  // called inside Send, after the message was recorded
+	sending  int                                 // Sends that are sleeping inside onSend
 }
 
 func (c *scriptConn) Close() error { c.once.Do(func() { close(c.closed) }); return nil }
@@ -89,6 +94,9 @@ func (c *scriptConn) Receive(ctx context.Context) (*actions.MessageStreamRequest
 }
 func (c *scriptConn) Send(ctx context.Context, d *actions.SubscriptionMessageDelivery) error {
 	c.record(d.ID, len(d.Payload))
+	if c.onSend != nil {
+		c.onSend(d.ID)
+	}
 	return nil
 }
 
@@ -126,6 +134,9 @@ func (g *grpcStream) Send(resp *pubsubpb.StreamingPullResponse) error {
 			return err
 		}
 		g.c.record(id, len(rm.Message.Data))
+		if g.c.onSend != nil {
+			g.c.onSend(id)
+		}
 	}
 	return nil
 }
@@ -216,6 +227,28 @@ func c11Run(t *testing.T, seed int64, cs c11Case, known map[string]bool) *c11Res
 		w.Ctl.mu.Unlock()
 		conn := &scriptConn{reqs: make(chan *actions.MessageStreamRequest), closed: make(chan struct{}), out: map[uuid.UUID]int{},
 			limit: actions.FlowControl{MaxMessages: 1, MaxBytes: 1}, ctl: w.Ctl}
+		if cs.AckInSend > 0 {
+			left := cs.AckInSend
+			conn.onSend = func(id uuid.UUID) {
+				if left <= 0 {
+					return
+				}
+				left--
+				conn.settle([]uuid.UUID{id})
+				ack := actions.NewAckDeliveries(id)
+				if err := w.Client.DoCtxTx(qctx, nil, ack.Execute); err != nil {
+					t.Errorf("ack inside Send: %v", err)
+				}
+				// the Send takes a moment more: whoever the acknowledgement woke runs before it returns
+				conn.mu.Lock()
+				conn.sending++
+				conn.mu.Unlock()
+				time.Sleep(time.Millisecond)
+				conn.mu.Lock()
+				conn.sending--
+				conn.mu.Unlock()
+			}
+		}
 		ctx, cancel := context.WithCancel(WithLabel(context.Background(), "stream"))
 		defer cancel()
 		w.Ctl.SpinGuard("stream", 200)
@@ -301,6 +334,16 @@ func c11Run(t *testing.T, seed int64, cs c11Case, known map[string]bool) *c11Res
 		}
 		quiesce := func() {
 			synctest.Wait()
+			for i := 0; i < 100; i++ {
+				conn.mu.Lock()
+				busy := conn.sending > 0
+				conn.mu.Unlock()
+				if !busy {
+					break
+				}
+				time.Sleep(2 * time.Millisecond) // a Send is still in progress (sleeping): let it finish
+				synctest.Wait()
+			}
 			if w.Ctl.Spinning() {
 				res.spins++
 			}
@@ -478,6 +521,16 @@ func c11Run(t *testing.T, seed int64, cs c11Case, known map[string]bool) *c11Res
 	return res
 }
 
+// acknowledgements that commit while the server is still inside the Send of that very message
+func c11AckInSendCases() []c11Case {
+	return []c11Case{
+		{Name: "ack-in-send-ordered", Ordered: true, AckInSend: 1, Actions: []c11Action{{K: "publish", Pads: []int{0, 0}}, {K: "fc", Msgs: 1, Byts: 1000}}},
+		{Name: "ack-in-send-unordered", AckInSend: 2, Actions: []c11Action{{K: "fc", Msgs: 1, Byts: 1000}, {K: "publish", Pads: []int{0, 0, 0}}}},
+		{Name: "ack-in-send-grpc", Grpc: true, Ordered: true, AckInSend: 1, Actions: []c11Action{{K: "publish", Pads: []int{0, 0}}, {K: "fc", Msgs: 1, Byts: 1000}}},
+		{Name: "ack-in-send-bytes", AckInSend: 1, Actions: []c11Action{{K: "fc", Msgs: 5, Byts: 14}, {K: "publish", Pads: []int{0, 0}}}},
+	}
+}
+
 func c11Cases(rng *rand.Rand, n int) []c11Case {
 	fixed := []c11Case{
 		{Name: "one-at-a-time", Actions: []c11Action{{K: "publish", Pads: []int{0, 0, 0}}, {K: "fc", Msgs: 1, Byts: 1000}, {K: "ack", Pick: []int{0}}, {K: "ack", Pick: []int{0}}, {K: "ack", Pick: []int{0}}}},
@@ -499,6 +552,7 @@ func c11Cases(rng *rand.Rand, n int) []c11Case {
 		c11Case{Name: "grpc-bytes", Grpc: true, Actions: []c11Action{{K: "fc", Msgs: 5, Byts: 28}, {K: "publish", Pads: []int{0, 0, 0, 0}}, {K: "ack", Pick: []int{0}}, {K: "extack", Pick: []int{0}}, {K: "nack", Pick: []int{0}}}},
 		c11Case{Name: "extend-keeps-slot", Actions: []c11Action{{K: "fc", Msgs: 2, Byts: 10000}, {K: "publish", Pads: []int{0, 0, 0, 0}}, {K: "extend", Pick: []int{0}}, {K: "ack", Pick: []int{1}}}},
 	)
+	fixed = append(fixed, c11AckInSendCases()...)
 	for i := 0; i < n; i++ {
 		c := c11Case{Name: fmt.Sprintf("random-%d", i), Ordered: rng.Intn(5) == 0, Grpc: i%4 == 3}
 		sizes := []int{0, 0, 5, 20, 60, 200}
@@ -610,6 +664,9 @@ func TestC11(t *testing.T) {
 			os.WriteFile(p, b, 0o644)
 			st.Violate(Violation{What: fmt.Sprintf("[%s] case %s: %s", r.sig, cs.Name, r.violation), Replay: p, FoundInput: true, Sig: r.sig})
 			continue
+		}
+		if cs.AckInSend > 0 {
+			continue // (the acknowledgement falls between a fetch and its bookkeeping: outside the event vocabulary of the stream model)
 		}
 		// the model on the same events: the batches must be the ones the model selects
 		outs, err := m.Replay([]string{"stream evs=" + strings.Join(r.evs, ";")})
